@@ -16,7 +16,7 @@ RULE = ("one evaluation = one (plaintext length, key, kind) encrypt/decrypt pair
 ASSUMPTIONS = ["`cryptography`'s AES-CBC primitive and hashlib's HMAC-SHA256 are trusted",
                "the reference implementation is anchored on the real-world (key, plaintext, ciphertext) triple frozen in data/mediacipher_vector.json",
                "an accepted forgery that decrypts to the same plaintext would not be flagged (80-bit MAC: does not occur)"]
-REQUIRED = ["roundtrip_cases", "aligned_or_empty", "tamper_cases", "tamper_rejected", "anchor_ok", "wrapper_cases"]
+REQUIRED = ["roundtrip_cases", "aligned_or_empty", "tamper_cases", "tamper_rejected", "anchor_ok", "wrapper_cases", "consumer_cases", "consumer_ok", "consumer_empty_ok", "consumer_tamper_rejected"]
 
 KINDS = {"image": b"WhatsApp Image Keys", "audio": b"WhatsApp Audio Keys", "video": b"WhatsApp Video Keys",
          "document": b"WhatsApp Document Keys"}
@@ -157,6 +157,104 @@ def tamper_all(acc, mc, r, pt, key, kind, flips):
             must_reject(acc, mc, ct, key, KINDS[other], pt, "wrong-kind", dict(base, wrong_kind=other))
 
 
+# ---------------------------------------------------------------------------------------------
+# the in-tree consumer of the cipher: the demos' download/decrypt/store worker
+def _stub_thirdparty():
+    """tqdm and requests are not installed in the sandbox; the worker only needs an iterator wrapper and is never asked to fetch."""
+    import sys
+    import types
+    if "tqdm" not in sys.modules:
+        m = types.ModuleType("tqdm")
+
+        class tqdm(object):
+            def __init__(self, iterable=None, **kw):
+                self.it = iterable
+
+            def __iter__(self):
+                return iter(self.it)
+
+            def update(self, n=1):
+                pass
+
+            def set_description(self, d):
+                pass
+        m.tqdm = tqdm
+        sys.modules["tqdm"] = m
+    if "requests" not in sys.modules:
+        m = types.ModuleType("requests")
+
+        def get(*a, **k):
+            raise RuntimeError("no network in the sandbox")
+        m.get = get
+        sys.modules["requests"] = m
+
+
+def consumer_case(acc, r, kind, n, tamper=False):
+    """An incoming media message as the media layer delivers it, handed to the demos' SinkWorker with the download replaced by
+    the ciphertext: the stored file must be the original bytes (empty files included); a tampered ciphertext stores nothing."""
+    import os
+    import shutil
+    from vf import env, treeeq
+    env.shim_thirdparty()
+    _stub_thirdparty()
+    from vf.props import c10
+    from yowsup.demos.common.sink_worker import SinkWorker
+    from yowsup.layers.protocol_media.mediacipher import MediaCipher
+    from yowsup.layers.protocol_media.protocolentities import (MediaMessageProtocolEntity, ImageDownloadableMediaMessageProtocolEntity,
+                                                               AudioDownloadableMediaMessageProtocolEntity, VideoDownloadableMediaMessageProtocolEntity,
+                                                               DocumentDownloadableMediaMessageProtocolEntity)
+    from yowsup.layers.protocol_messages.protocolentities.attributes.attributes_message_meta import MessageMetaAttributes
+    cls = {"image": ImageDownloadableMediaMessageProtocolEntity, "audio": AudioDownloadableMediaMessageProtocolEntity,
+           "video": VideoDownloadableMediaMessageProtocolEntity, "document": DocumentDownloadableMediaMessageProtocolEntity}[kind]
+    key = gen.blob(r, 32)
+    pt = plaintext(r, n)
+    ct = ref_encrypt(pt, key, KINDS[kind])
+    if tamper and len(ct):
+        b = bytearray(ct)
+        b[r.randrange(len(b))] ^= 1 << r.randrange(8)
+        ct = bytes(b)
+    _, msg = c10.gen_message(r, kind, with_skdm=False)
+    dl = getattr(msg, kind).downloadablemedia_attributes
+    dl.media_key, dl.url = key, "https://mmg.example.net/d/f/%s.enc" % gen.s_from(r, gen.ALNUM, 10)
+    dl.mimetype = {"image": "image/jpeg", "audio": "audio/ogg; codecs=opus", "video": "video/mp4", "document": "application/pdf"}[kind]
+    if kind == "document":
+        msg.document.file_name = "doc-%s.pdf" % gen.s_from(r, gen.ALNUM, 6)
+    meta = MessageMetaAttributes(id=gen.msgid(r), sender=gen.jid(r), timestamp=1600000000, notify="n")
+    ent = cls.fromProtocolTreeNode(MediaMessageProtocolEntity(kind, msg, meta).toProtocolTreeNode())
+    d = os.path.join(env.SCRATCH, "c15sink", "%d" % os.getpid())
+    shutil.rmtree(d, ignore_errors=True)
+    os.makedirs(d)
+    w = {"op": "consumer", "kind": kind, "len": n, "tamper": tamper}
+    acc.count("consumer_cases")
+    acc.case(["sink", kind, n, tamper, key.hex()], nontrivial=(n % 16 == 0))
+    wk = SinkWorker(d)
+    wk._download = lambda url: ct
+    wk.enqueue(ent)
+    wk.enqueue(None)
+    wk.start()
+    wk.join(20)
+    files = sorted(os.listdir(d))
+    try:
+        if tamper:
+            if files:
+                acc.violation("consumer:tampered-stored", "a tampered %s download was stored as %s" % (kind, files), w)
+            else:
+                acc.count("consumer_tamper_rejected")
+            return
+        if len(files) != 1:
+            acc.violation("consumer:not-stored:%s" % ("empty" if n == 0 else "nonempty"), "a %d-byte %s file was downloaded and decrypted but %d files were stored" % (n, kind, len(files)), w)
+            return
+        got = open(os.path.join(d, files[0]), "rb").read()
+        if got != pt:
+            acc.violation("consumer:content-differs", "stored %s file differs from the original (%d vs %d bytes)" % (kind, len(got), len(pt)), w)
+            return
+        acc.count("consumer_ok")
+        if n == 0:
+            acc.count("consumer_empty_ok")
+    finally:
+        shutil.rmtree(d, ignore_errors=True)
+
+
 def keys_for(seed, n):
     r = gen.rng(seed, ID, "keys")
     return [gen.blob(r, 32) for _ in range(n)]
@@ -174,6 +272,7 @@ def shards(tier, seed, nworkers):
     for i in range(nsh):
         specs.append({"kind": "tamper", "lens": lens[i::nsh], "flips": [1, 0x80, 0xFF] if tier == "quick" else "all<=32"})
     specs.append({"kind": "random", "n": 150 if tier == "quick" else 3000, "maxlen": 1 << 20})
+    specs.append({"kind": "consumer", "n": 40 if tier == "quick" else 2000})
     return specs
 
 
@@ -182,6 +281,15 @@ def run(spec, acc):
     seed = spec["seed"]
     mc = MediaCipher()
     if not anchor(acc):
+        return
+    if spec["kind"] == "consumer":
+        for kind in ("image", "audio", "video", "document"):
+            for n in (0, 1, 15, 16, 17, 32):
+                consumer_case(acc, gen.rng(seed, ID, "sink/%s/%d" % (kind, n)), kind, n)
+        for i in range(spec["n"]):
+            r = gen.rng(seed, ID, "sinkr/%d" % i)
+            consumer_case(acc, r, r.choice(["image", "audio", "video", "document"]), r.choice([0, 16, r.randint(0, 100), r.randint(0, 5000)]), tamper=r.random() < 0.3)
+        acc.sample({"consumer": "demos' SinkWorker: download stubbed with the ciphertext, stored file compared with the original"})
         return
     if spec["kind"] == "lengths":
         keys = keys_for(seed, spec["nkeys"])
